@@ -203,7 +203,9 @@ def m_vec_swap_remove(ex, a, t):
 def m_tx_send(ex, a, t):
     tx = target(a[0])
     if hasattr(ex, 'on_send'): pass
-    if not tx.ch.rx_alive or getattr(tx.ch, 'closed', False): return Enum('Result', 'Err', [Struct('SendError', [a[1]])])
+    if not tx.ch.rx_alive or getattr(tx.ch, 'closed', False):
+        if getattr(ex, 'on_send_fail', None): ex.on_send_fail(tx.ch, a[1])
+        return Enum('Result', 'Err', [Struct('SendError', [a[1]])])
     tx.ch.q.append(a[1])
     if getattr(ex, 'after_send', None): ex.after_send(tx.ch)
     return Enum('Result', 'Ok', [UNIT])
